@@ -32,6 +32,7 @@ FP_SINGLE = "singleton-union-collapsed"
 FP_EQHASH = "pytd-eq-nested-union-order"
 FP_IMPORT = "unused-typing-import-after-elided-annotation"
 FP_MUTIMPORT = "mutated-type-typing-name-not-imported"
+FP_CLASSEQ = "pytd-class-eq-lookup-cache"
 
 
 # ---------------------------------------------------------------------------------------------------
@@ -607,9 +608,14 @@ def run(res):
   hist = collections.Counter()
   mism = []            # correspondence disagreements (first few kept)
   n_mism = 0
-  viol_budget = [3]
+  viol_budget = [8]          # distinct fingerprints reported per run
+
+  reported = set()
 
   def report(fp, what, replay):
+    if fp in reported and fp not in res.known:
+      return                                   # one replay per fingerprint
+    reported.add(fp)
     if fp in res.known or viol_budget[0] > 0:
       if res.violation(fp, what, replay) and fp not in res.known:
         viol_budget[0] -= 1
@@ -886,7 +892,7 @@ def run(res):
     res.count(("stub", pyi))
     check_stub_text(res, impl, ids, pyi, {"program": src}, hist, report, unknown_violation, printed_ast=ret.ast)
   phase["programs"] = round(time.time() - tp, 1); tp = time.time()
-  res.extra["programs"] = {"generated": i + 1, "stubs_emitted": n_emitted, "pytype_crashed_before_emitting": n_crash,
+  res.extra["program_stream"] = {"generated": i + 1, "stubs_emitted": n_emitted, "pytype_crashed_before_emitting": n_crash,
                            "wall_s": round(time.time() - t0, 1)}
 
   # ---------------- (5) whole stubs in the emitted dialect, built independently of any program ----------------
@@ -1003,7 +1009,14 @@ def check_stub_text(res, impl, ids, text, origin, hist, report, unknown_violatio
     try:
       b2 = impl.parse(o["text2"])
       if not impl.pytd_utils.ASTeq(o["ast"], b2):
-        unknown_violation("stub-asteq", "ASTeq(parse(text), parse(print(parse(text)))) is false", replay)
+        # pytd.Class.__eq__ also compares the _name2item lookup cache, which printing fills (LookupItemRecursive on a
+        # dotted reference to a nested class): the printed AST is then != an identical, freshly parsed one
+        if impl.pytd_utils.ASTeq(impl.parse(text), b2):
+          hist["stub:asteq-false-by-lookup-cache"] += 1
+          report(FP_CLASSEQ, "ASTeq(parse(text), parse(print(parse(text)))) is false only because printing filled "
+                 "Class._name2item", replay)
+        else:
+          unknown_violation("stub-asteq", "ASTeq(parse(text), parse(print(parse(text)))) is false", replay)
     except Exception as e:  # pylint: disable=broad-except
       unknown_violation("stub-reparse", "re-printed stub does not parse: %r" % (e,), replay)
   if printed_ast is not None:
